@@ -20,6 +20,7 @@ type Log = Arc<Mutex<Vec<String>>>;
 
 struct Script {
     refused: bool,
+    silent: bool, // the connection attempt is never answered
     chunks: Vec<(Option<u64>, Vec<u8>)>, // delay in ms (None = never), bytes
     close: bool,
 }
@@ -101,7 +102,10 @@ fn parse_conns(s: &str) -> Vec<Script> {
     s.split('|')
         .map(|c| {
             if c == "refused" {
-                return Script { refused: true, chunks: vec![], close: false };
+                return Script { refused: true, silent: false, chunks: vec![], close: false };
+            }
+            if c == "silent" {
+                return Script { refused: false, silent: true, chunks: vec![], close: false };
             }
             let mut chunks = Vec::new();
             let mut close = false;
@@ -115,7 +119,7 @@ fn parse_conns(s: &str) -> Vec<Script> {
                     }
                 }
             }
-            Script { refused: false, chunks, close }
+            Script { refused: false, silent: false, chunks, close }
         })
         .collect()
 }
@@ -232,6 +236,12 @@ fn run_case(config: &str, ops: &str, conns: &str) -> String {
                         Some(s) if s.refused => {
                             log.lock().unwrap().push(format!("X@{}", now_ms(start)));
                             Err(std::io::Error::new(std::io::ErrorKind::ConnectionRefused, "refused"))
+                        }
+                        Some(s) if s.silent => {
+                            // nobody answers the attempt: it stays pending for ever (the client's own timeout has to end it)
+                            log.lock().unwrap().push(format!("X@{}", now_ms(start)));
+                            std::future::pending::<()>().await;
+                            unreachable!()
                         }
                         Some(s) => {
                             let id = {
